@@ -136,7 +136,9 @@ def norm(items):
 def via_sync(ctx, chunks, boundary):
     from baize.datastructures import UploadFile
     from baize.multipart_helper import parse_stream
-    return norm(parse_stream(iter(chunks), boundary, "utf8", file_factory=UploadFile))
+    # the helper takes any iterable of chunks: an iterator, a list, a tuple
+    stream = iter(chunks) if len(chunks) % 3 == 0 else (list(chunks) if len(chunks) % 3 == 1 else tuple(chunks))
+    return norm(parse_stream(stream, boundary, "utf8", file_factory=UploadFile))
 
 
 def via_async(ctx, chunks, boundary):
